@@ -177,6 +177,9 @@ def submit_guard(ctx):
         ctx.check(bool(ws) and any(unparse(i.context_expr) == "self._flags.shutdown_lock" for i in ws[0].items) and in_block(put[0], ws[0].body), t[0], "test and enqueue are under the shutdown lock (atomic with flag_as_broken)")
     sd = [n for n in nodes_of_type(f, ast.If) if unparse(n.test) == "self._flags.shutdown"]
     ctx.check(bool(sd) and isinstance(sd[0].body[-1], ast.Raise), sd[0] if sd else f, "submit after shutdown raises")
+    if sd and t:
+        ctx.check(g.every_path_to(g.nodes_of(sd[0]), g.nodes_of(t[0])), t[0], "the broken test precedes the shutdown test (a broken executor is also flagged shut down: the worker-termination error must win)",
+                  "the shutdown test is reached before the broken test: after a worker died, submit raises ShutdownExecutorError instead of the worker-termination error")
     rets = nodes_of_type(f, ast.Return)
     pw = [a for a in nodes_of_type(f, ast.Assign) if unparse(a.targets[0]) == "self._pending_work_items[self._queue_count]"]
     ctx.check(bool(pw) and g.every_path_to(g.nodes_of_all(put), g.nodes_of(pw[0])), pw[0] if pw else f, "the work item is recorded as pending before its id is queued (so terminate_broken can fail it)")
